@@ -283,6 +283,10 @@ class Executor:
         m = re.fullmatch(r"(-?\d+)_(\w+)", c)
         if m and m.group(2) in INT_BITS:
             return vint(lit(int(m.group(1))), m.group(2))
+        m = re.fullmatch(r"(?:core::num::<impl )?(\w+)>?::(MAX|MIN)", c)
+        if m and m.group(1) in INT_BITS:
+            lo, hi = ty_range(m.group(1))
+            return vint(lit(hi if m.group(2) == "MAX" else lo), m.group(1))
         if c == "true":
             return vbool("true")
         if c == "false":
@@ -293,6 +297,9 @@ class Executor:
         m = re.fullmatch(r"(?:std::|core::)?option::Option::<.*>::None", c)
         if m:
             return venum("Option", "None")
+        m = re.match(r"std::time::Duration \{+ secs: (\d+)_u64, nanos: .*Nanoseconds\((\d+)_u32", c)
+        if m:
+            return vagg([vint(lit(int(m.group(1))), "u64"), vint(lit(int(m.group(2))), "u32")], name="std::time::Duration")
         m = re.match(r"SystemTime\(.*tv_sec: (-?\d+)_i64, tv_nsec: .*Nanoseconds\((\d+)_u32", c)
         if m:
             return vagg([vint(lit(int(m.group(1))), "i64"), vint(lit(int(m.group(2))), "u32")], name="SystemTime")
